@@ -590,7 +590,7 @@ def compare_model(ap, obs, enc=None, out=None):
 def encode_sd(ap, obs_end):
     """flat-integer encoding of a forward project without alternatives for ocaml/scheddriver.ml:
     'sd ...' (Model/SubSlot.v) when every effort task allocates one resource - limits of resources, groups, tasks
-    and containers included -, 'sdt ...' (Model/SubSlotTeam.v) when there are teams (then without limits).
+    and containers included -, 'sdt ...' (Model/SubSlotTeam.v) when there are teams (limits included as well).
     Efforts, efficiencies and gaps are arbitrary (exact rationals).  Raises NotCore outside that dialect."""
     from fractions import Fraction
     G = ap.get("G", 3600)
@@ -615,8 +615,6 @@ def encode_sd(ap, obs_end):
         ids = []
         for kind, per in (("dailymax", 86400), ("weeklymax", 604800)):
             if n.get(kind) is not None:
-                if teams:
-                    raise NotCore("limits together with teams at second granularity")
                 only = -1
                 if n.get("limit_res"):
                     if len(n["limit_res"]) != 1:
@@ -626,19 +624,18 @@ def encode_sd(ap, obs_end):
                 ids.append(len(limits) - 1)
         return ids
     rlim = {p: add_limits(n) for p, n in ridx.items()}
-    out = [upper] + ([] if teams else [S]) + [G, len(rleaf)]
+    out = [upper, S, G, len(rleaf)]
     for p, n in rleaf:
         work = [1 if working(ap, n, S + s * G) else 0 for s in range(upper + 1)]
         e = Fraction(str(n.get("eff") or "1.0"))
         ls = []
         for k in range(len(p), 0, -1):
             ls += rlim[p[:k]]
-        out += [len(work)] + work + [e.numerator, e.denominator] + ([] if teams else [len(ls)] + ls)
+        out += [len(work)] + work + [e.numerator, e.denominator, len(ls)] + ls
     tlim = {p: add_limits(n) for p, n in tidx.items()}
-    if not teams:
-        out += [len(limits)]
-        for v, per, only in limits:
-            out += [v, per, only]
+    out += [len(limits)]
+    for v, per, only in limits:
+        out += [v, per, only]
     edges = all_edges(ap)
     out.append(len(order))
     for p in order:
@@ -680,7 +677,7 @@ def encode_sd(ap, obs_end):
             tl += tlim[p[:k]]
         out += [1 if leaf else 0, len(lvs)] + lvs + [prio, mile, eff_s, 1]
         out += ([len(team)] + team) if teams else [team[0] if team else 0]
-        out += [len(deps)] + [x for d in deps for x in d] + [pin, lb] + ([] if teams else [len(tl)] + tl)
+        out += [len(deps)] + [x for d in deps for x in d] + [pin, lb, len(tl)] + tl
     return ("sdt " if teams else "sd ") + " ".join(str(x) for x in out), order, [fid(p) for p, _ in rleaf]
 
 
@@ -737,7 +734,8 @@ def compare_many(pairs):
         except NotCore as ex:
             why = str(ex)
         try:
-            encs.append(("second", encode_sd(ap, obs["end"])))
+            enc = encode_sd(ap, obs["end"])
+            encs.append(("team" if enc[0].startswith("sdt") else "second", enc))
         except NotCore as ex2:
             encs.append((None, why + " / " + str(ex2)))
     idx = [i for i, (k, _) in enumerate(encs) if k]
